@@ -195,6 +195,10 @@ def start_mesh(ck, case):
         for x0, y0, x1, y1 in case["lines"]:
             for x, y in c15.bresenham(x0, y0, x1, y1):
                 img[y, x] = 1
+        for x, y in case.get("set", []):
+            img[y, x] = 1
+        for x, y in case.get("clear", []):
+            img[y, x] = 0
         d = tempfile.mkdtemp(prefix="c09_")
         try:
             pth = os.path.join(d, "s.tif")
